@@ -45,12 +45,17 @@ Grammar(segments, layers, gkr) ==
 MaxOf(w) == CASE w = 1 -> "ff" [] w = 2 -> "ffff" [] w = 4 -> "ffffffff" [] w = 8 -> "ffffffffffffffff"
 ScalarMutations == {"zero", "one", "max", "max-1", "plus1", "minus1", "flip-high-bit"}
 \* the optional trailing component (GKR proof): absent -> present with a well-formed 3-byte body; present -> absent
-OptionMutations == {"set-some", "set-none"}
+WideLens == {"max", "max-1", "wrap", "wrap+len", "wrap-1", "2^63", "2^32", "2^31"}
+OptionMutations == {"set-some", "set-none"} \cup {"set-some-wide:" \o x : x \in WideLens}
 BlobMutations   == {"shorten", "lengthen", "append-zero", "prefix+1", "prefix-1", "prefix-max", "empty", "flip-first-bit", "flip-last-bit",
                     "zero-first-chunk", "swap-chunks", "dup-last-chunk", "drop-first-chunk"}
 
 \* a vint64 length prefix whose first byte is 0 announces an eight-byte length (the following bytes): a huge vector
-VBlobMutations  == BlobMutations \cup {"prefix-wide"}
+\* a 64-bit scalar (the proof-of-work nonce) shifted by a field modulus or a limb boundary: a value that a hasher reducing the
+\* integer modulo its field, or keeping only one limb, cannot tell from the original
+AliasMutations == {"add:" \o x : x \in {"p64", "p62", "2^32", "2^62", "2^63"}}
+\* WideLens: the eight-byte length is one of the largest values, or makes "reader position + length" wrap around 2^64
+VBlobMutations  == BlobMutations \cup {"prefix-wide"} \cup {"prefix-wide:" \o x : x \in WideLens}
 \* one-byte scalars (counts, sizes, exponents, option fields): every value, so that semantic boundaries (the largest valid
 \* exponent, the largest valid option) are met whatever they are
 ByteSet == {"set:" \o ToString(x) : x \in 0..255}
@@ -67,7 +72,8 @@ MutationsOf(f) == IF f.name = "fri.num_layers" THEN {[field |-> f.name, m |-> x]
                   IF f.kind = "scalar" /\ f.width = 1 /\ f.name # "gkr.tag"
                   THEN {[field |-> f.name, m |-> x] : x \in ByteSet} ELSE
                   IF f.kind = "vblob" THEN {[field |-> f.name, m |-> x] : x \in VBlobMutations} ELSE
-                  IF f.kind = "scalar" THEN {[field |-> f.name, m |-> x] : x \in ScalarMutations \cup (IF f.name = "gkr.tag" THEN OptionMutations ELSE {})}
+                  IF f.kind = "scalar" THEN {[field |-> f.name, m |-> x] : x \in ScalarMutations \cup (IF f.name = "gkr.tag" THEN OptionMutations ELSE {})
+                                                                              \cup (IF f.width = 8 THEN AliasMutations ELSE {})}
                   ELSE {[field |-> f.name, m |-> x] : x \in BlobMutations}
 AllMutations(segments, layers, gkr) == UNION {MutationsOf(Grammar(segments, layers, gkr)[i]) : i \in DOMAIN Grammar(segments, layers, gkr)}
 
